@@ -395,11 +395,11 @@ def gen_task(rng, tier, focus):
                     peer['fault'] = [kind, rng.randrange(1 << 10)]
                 peer['fault_call'] = rng.choice([0, 0, 1])
             task['peer'] = peer
-    if focus == 'C07' and '-ss' not in task['argv'] and '-collagen' not in task['argv'] and rng.random() < 0.15:
+    if focus in ('C07', 'C11') and '-ss' not in task['argv'] and '-collagen' not in task['argv'] and rng.random() < (0.15 if focus == 'C07' else 0.10):
         # the DSSP stage writes its own output (chain_X.ssd) and a scratch input: both must respect the gate
         task['argv'] += ['-dssp', 'simdssp']
         task['peer'] = {'seed': rng.randrange(1 << 30), 'version': rng.choice(['3.0.0', '4.4.0'])}
-        if rng.random() < 0.2:
+        if focus == 'C07' and rng.random() < 0.2:
             task['peer']['fault'] = ['exit', 0]
     if focus in ('C07', 'C08') and rng.random() < 0.25:
         # an entry in a molecule's log (what [ warning ]/[ error ] sections of a force field produce): logged by the CLI
